@@ -60,6 +60,13 @@ class ModuleVal:
         self.name, self.attrs = name, attrs
 
 
+class KwMap:
+    """the **kwargs of a function under verification / of a call: {name: (present, value)} over a fixed field universe"""
+
+    def __init__(self, fields):
+        self.fields = fields          # name -> (present: z3 Bool | bool, value)
+
+
 class Closure:
     def __init__(self, node, env):
         self.node, self.env = node, env
@@ -540,6 +547,13 @@ class Interp:
 
     def contains(self, container, x):
         U = self.U
+        if isinstance(container, tuple) and len(container) == 2 and isinstance(container[0], str) and container[0] == 'kwkeys':
+            if not isinstance(x, str):
+                raise OutsideSubset('membership of a non-constant in kwargs keys')
+            kw = container[1]
+            return kw.fields[x][0] if x in kw.fields else False
+        if isinstance(container, (set, frozenset, dict)):
+            return x in container
         if is_z3(container):
             if z3.is_array_sort(container) if hasattr(z3, 'is_array_sort') else isinstance(container.sort(), z3.ArraySortRef):
                 sn = self.sort_of(container)
@@ -598,6 +612,8 @@ class Interp:
                     raise OutsideSubset('no field %s on sort %s' % (attr, sn))
                 raise SymRaise('AttributeError', attr)
             return FuncVal('method', attr, base)
+        if isinstance(base, KwMap):
+            return FuncVal('method', attr, base)
         if isinstance(base, (list, tuple)) and not (len(base) >= 1 and isinstance(base[0], str) and base[0] == 'opaque'):
             return FuncVal('method', attr, base)
         if isinstance(base, str):
@@ -618,6 +634,21 @@ class Interp:
         base = self.ev(node.value)
         U = self.U
         sl = node.slice
+        if isinstance(base, KwMap):
+            k = self.ev(sl)
+            if not isinstance(k, str):
+                raise OutsideSubset('kwargs[<non-constant>]')
+            if k not in base.fields:
+                raise SymRaise('KeyError', k)
+            present, val = base.fields[k]
+            if not self.pure and not self.choose_bool(present, '@kwargs-has:' + k):
+                raise SymRaise('KeyError', k)
+            return val
+        if isinstance(base, dict):
+            k = self.ev(sl)
+            if k not in base:
+                raise SymRaise('KeyError', repr(k))
+            return base[k]
         if isinstance(base, (tuple, list)) and not isinstance(sl, ast.Slice):
             i = self.ev(sl)
             if isinstance(i, int):
@@ -718,6 +749,33 @@ class Interp:
             return z3.simplify(U.hd(sn, base))
         raise OutsideSubset('index %d on %s list' % (i, kind))
 
+    def ev_DictComp(self, node):
+        if len(node.generators) != 1 or node.generators[0].ifs:
+            raise OutsideSubset('dict comprehension shape')
+        g = node.generators[0]
+        it = self.ev(g.iter)
+        if not isinstance(it, (tuple, list)) or not isinstance(g.target, ast.Name):
+            raise OutsideSubset('dict comprehension over a non-constant sequence')
+        out = {}
+        saved = self.env.get(g.target.id, KeyError)
+        for x in it:
+            self.env[g.target.id] = x
+            k = self.ev(node.key)
+            if not isinstance(k, str):
+                raise OutsideSubset('dict comprehension with a non-constant key')
+            out[k] = self.ev_pure(node.value)       # value expressions are merged with ite, not forked
+        if saved is KeyError:
+            self.env.pop(g.target.id, None)
+        else:
+            self.env[g.target.id] = saved
+        return out
+
+    def ev_Dict(self, node):
+        h = getattr(self.U, 'dict_hook', None)
+        if h is None:
+            raise OutsideSubset('dict display')
+        return h(self, node)
+
     def ev_Lambda(self, node):
         return Closure(node, dict(self.env))
 
@@ -741,10 +799,21 @@ class Interp:
         if isinstance(node.func, ast.Name) and node.func.id == 'isinstance':
             return self.isinstance_(node)
         fn = self.ev(node.func)
-        args = [self.ev(a) for a in node.args]
-        kwargs = {k.arg: self.ev(k.value) for k in node.keywords}
-        if any(k.arg is None for k in node.keywords) or any(isinstance(a, ast.Starred) for a in node.args):
+        if any(isinstance(a, ast.Starred) for a in node.args):
             raise OutsideSubset('star arguments')
+        args = [self.ev(a) for a in node.args]
+        kwargs = {}
+        for k in node.keywords:
+            if k.arg is None:
+                d = self.ev(k.value)
+                if isinstance(d, dict) and all(isinstance(x, str) for x in d):
+                    kwargs.update(d)
+                elif isinstance(d, KwMap):
+                    kwargs['**'] = d
+                else:
+                    raise OutsideSubset('**argument that is not a dict with constant keys')
+            else:
+                kwargs[k.arg] = self.ev(k.value)
         return self.call(fn, args, kwargs, node)
 
     def isinstance_(self, node):
@@ -875,6 +944,14 @@ class Interp:
 
     def call_method(self, obj, name, args, kwargs, node):
         U = self.U
+        if isinstance(obj, KwMap) and name == 'keys':
+            return ('kwkeys', obj)
+        if isinstance(obj, tuple) and len(obj) == 2 and isinstance(obj[0], str) and obj[0] == 'kwkeys' and name == 'issubset':
+            other = args[0]
+            if isinstance(other, (set, frozenset)):
+                # the field universe of a KwMap is fixed: keys outside it cannot be represented (stated in the contract)
+                return all(f in other for f in obj[1].fields)
+            raise OutsideSubset('issubset of %r' % (other,))
         if isinstance(obj, str) and name == 'format':
             return self.fresh('Str', 'fmt')          # the text of messages is not modelled
         if isinstance(obj, str):
@@ -949,6 +1026,23 @@ class Interp:
         raise OutsideSubset('list method %s on %s list' % (name, info.kind))
 
     def bind_params(self, c, args, kwargs, skip_self=False):
+        kwp = getattr(c, 'kwparam', None)
+        if kwp:
+            # the callee declares **kwargs: collect the call's keywords that are not named parameters
+            named = [n for n in c.params if n != kwp]
+            extra = {k: v for k, v in kwargs.items() if k not in named and k != '**'}
+            kwargs = {k: v for k, v in kwargs.items() if k in named}
+            universe = c.kw_universe        # {field: sort}
+            for k in extra:
+                if k not in universe:
+                    raise SymRaise('AssertionError', 'unexpected keyword %s' % k)
+            fields = {}
+            for f, sn in universe.items():
+                if f in extra:
+                    fields[f] = (True, self.coerce(extra[f], sn))
+                else:
+                    fields[f] = (False, self.fresh(sn, 'absent_' + f))
+            kwargs[kwp] = KwMap(fields)
         names = list(c.params)
         vals = {}
         for n, a in zip(names, args):
@@ -965,7 +1059,7 @@ class Interp:
                 if d is KeyError:
                     raise OutsideSubset('missing argument %s in call of %s' % (n, c.qualname))
                 vals[n] = d
-        return {n: (vals[n] if n in c.fnparams else self.coerce(vals[n], c.params[n])) for n in names}
+        return {n: (vals[n] if (n in c.fnparams or isinstance(vals[n], KwMap)) else self.coerce(vals[n], c.params[n])) for n in names}
 
     def call_contract(self, c, args, kwargs, node, callee_term=None):
         """Modular call: assert pre, havoc modifies, assume post."""
@@ -1280,6 +1374,14 @@ class Interp:
             hook = getattr(self.U, 'setitem_hooks', {}).get(self.sort_of(base))
             if hook and isinstance(target.value, ast.Name):
                 self.env[target.value.id] = hook(self, base, target.slice, value)
+                return
+        if isinstance(target, ast.Attribute) and isinstance(target.value, ast.Name):
+            base0 = self.env.get(target.value.id)
+            sn0 = self.sort_of(base0) if is_z3(base0) else None
+            if sn0 in self.U.records and target.attr in self.U.records[sn0] and (sn0, target.attr) not in getattr(self.U, 'setattr_hooks', {}):
+                flds = self.U.decl_spec[sn0][1]
+                vals = [self.coerce(value, fs) if f == target.attr else z3.simplify(self.U.rget(sn0, f, base0)) for f, fs in flds]
+                self.env[target.value.id] = self.U.mk(sn0, *vals)
                 return
         if isinstance(target, ast.Attribute):
             base = self.ev(target.value)
@@ -1737,7 +1839,28 @@ def _b_unwrap(I, args, kwargs, node):
     return I.coerce(v, I.U.options[sn])
 
 
+def _b_set(I, args, kwargs, node):
+    if not args:
+        h = getattr(I.U, 'new_set_hook', None)
+        if h:
+            return h(I)
+        raise OutsideSubset('set()')
+    v = args[0]
+    if isinstance(v, tuple) and len(v) == 2 and isinstance(v[0], str) and v[0] == 'kwkeys':
+        return v
+    if isinstance(v, (tuple, list)) and all(isinstance(x, str) for x in v):
+        return set(v)
+    raise OutsideSubset('set(%r)' % (v,))
+
+
+def _b_getattr(I, args, kwargs, node):
+    if len(args) != 2 or not isinstance(args[1], str):
+        raise OutsideSubset('getattr with a non-constant name or a default')
+    return I.getattr(args[0], args[1])
+
+
 BUILTINS = {
+    'set': _b_set, 'getattr': _b_getattr,
     'cons': _b_cons, 'unwrap': _b_unwrap,
     'rank': _b_rank, 'next': _b_next, 'zip': _b_zip, 'cycle': _b_cycle, 'chain': _b_chain,
     'len': _b_len, 'min': _b_min, 'max': _b_max, 'reversed': _b_reversed, 'copy': _b_copy,
